@@ -42,11 +42,12 @@ type ConstSpec struct {
 }
 
 type Spec struct {
-	Module       string      `json:"module"`
-	TypedImports []string    `json:"typed_imports"`
+	Module       string            `json:"module"`
+	TypedImports []string          `json:"typed_imports"`
 	NamedTypes   map[string]string `json:"named_types"` // "pkgpath.Name" -> expected underlying basic type (verified)
-	Consts       []ConstSpec `json:"consts"`
-	Functions    []FuncSpec  `json:"functions"`
+	ConstVars    []string          `json:"const_vars"`  // package-level vars with constant initialiser, treated as constants
+	Consts       []ConstSpec       `json:"consts"`
+	Functions    []FuncSpec        `json:"functions"`
 }
 
 func fatalf(format string, a ...interface{}) {
